@@ -7,6 +7,7 @@ from typing import Any, Dict, Optional, Union
 
 import pandas as pd
 
+from vtlengine import _verif
 from vtlengine.AST.Grammar.tokens import GT, GTE, LT, LTE
 from vtlengine.Exceptions import RunTimeError
 
@@ -22,10 +23,12 @@ class TimePeriodConfig:
 
     @classmethod
     def set_representation(cls, representation: str) -> None:
+        _verif.yield_point("tp.set", value=representation)
         cls._representation = representation
 
     @classmethod
     def get_representation(cls) -> str:
+        _verif.yield_point("tp.get")
         return cls._representation
 
 
